@@ -375,12 +375,13 @@ def run(ctx):
         tif = rng.choice(['none', 'le'])
         pays = [G.payload(k + 1, L) for k, L in enumerate(lens)]
         tr = []
-        m = dict(lens=lens, tif=tif, cfg=dict(maxpr=maxpr, rn=rn, fn=fn, ck=ck, fnval=3))
+        fnval = rng.choice([0, 0, 1, 3, 255, 9999])          # file number 0 is the legal minimum
+        m = dict(lens=lens, tif=tif, cfg=dict(maxpr=maxpr, rn=rn, fn=fn, ck=ck, fnval=fnval))
         try:
             f = io.BytesIO()
             f.close = lambda: None
             fw = File.FileWrite(f, 'verif', hasTif=(tif == 'le'), thePrLen=maxpr,
-                                thePrt=PhysRec.PhysRecTail(hasRecNum=bool(rn), fileNum=(3 if fn else None), hasCheckSum=bool(ck)))
+                                thePrt=PhysRec.PhysRecTail(hasRecNum=bool(rn), fileNum=(fnval if fn else None), hasCheckSum=bool(ck)))
             rets = [fw.write(p) for p in pays]
             fw.close()
             data = f.getvalue()
@@ -407,7 +408,7 @@ def run(ctx):
                 f2 = io.BytesIO()
                 f2.close = lambda: None
                 fw2 = File.FileWrite(f2, 'verif', hasTif=False, thePrLen=maxpr,
-                                     thePrt=PhysRec.PhysRecTail(hasRecNum=bool(rn), fileNum=(3 if fn else None), hasCheckSum=bool(ck)))
+                                     thePrt=PhysRec.PhysRecTail(hasRecNum=bool(rn), fileNum=(fnval if fn else None), hasCheckSum=bool(ck)))
                 for p in pays:
                     fw2.write(p)
                 fw2.close()
